@@ -49,11 +49,11 @@ def _decorator_kind(f: FuncInfo) -> Optional[str]:
 
 
 ROLE_MODULES = ("_storage",)  # functions there carry roles (push/pop/get/set, flag set/clear) that the
-# rules recognise at call sites: they are inlined into one another, never into other modules
+# rules recognise at call sites and follow through delegates themselves: never inlined
 
 
 def _inlinable(model, h: FuncInfo, caller: Optional[FuncInfo] = None) -> bool:
-    if caller is not None and h.module.short in ROLE_MODULES and caller.module.short != h.module.short:
+    if h.module.short in ROLE_MODULES:
         return False
     n = h.node
     if not isinstance(n, ast.FunctionDef):
@@ -172,8 +172,15 @@ def _bind(model, caller: FuncInfo, call: ast.Call, h: FuncInfo):
         if not isinstance(call.func, ast.Attribute) or not params:
             return None
         recv = call.func.value
-        # cls.h(...) / self.h(...) from a method of the same class; Class.h(obj, ...) is not handled
+        # cls.h(...) / self.h(...) from a method of the same class only: calls through other objects keep
+        # their abstraction (instance typing resolves them); Class.h(obj, ...) is not handled
         if not isinstance(recv, ast.Name):
+            return None
+        own = caller
+        while isinstance(own, FuncInfo) and own.cls is None:
+            own = own.parent
+        if not (isinstance(own, FuncInfo) and own.params and own.params[0] == recv.id and own.cls is not None
+                and h.cls in [k for k in model.mro(own.cls)]):
             return None
         bound[params[0]] = recv
         params = params[1:]
@@ -388,3 +395,38 @@ def inline_new_helpers(model, inventory: set) -> list:
             ast.fix_missing_locations(f.node)
             changed.append(f.qualname)
     return changed
+
+
+def drop_absorbed_helpers(model, inventory: set) -> list:
+    """After inlining: a new helper that is no longer called or mentioned anywhere has been absorbed
+    by its callers; its definition is removed so that censuses do not count its statements twice.
+    (The model must have been re-indexed after the last inlining round.)"""
+    new_helpers = [f for f in model.functions.values() if _is_new(f, inventory) and isinstance(f.node, ast.FunctionDef)]
+    if not new_helpers:
+        return []
+    used = set()
+    for mod in model.modules.values():
+        for n in ast.walk(mod.tree):
+            if isinstance(n, ast.Name) and isinstance(n.ctx, ast.Load):
+                used.add(n.id)
+            elif isinstance(n, ast.Attribute) and isinstance(n.ctx, ast.Load):
+                used.add(n.attr)
+            elif isinstance(n, ast.Constant) and isinstance(n.value, str) and n.value.isidentifier():
+                used.add(n.value)  # getattr(x, "name") / __all__
+            elif isinstance(n, ast.alias):
+                used.add(n.name.split(".")[-1])
+    dropped = []
+    for h in new_helpers:
+        if h.name in used or h.name.startswith("__"):
+            continue
+        owner_body = None
+        if isinstance(h.parent, FuncInfo):
+            continue  # local defs stay (cheap, and their enclosing function may refer to them in ways we miss)
+        if h.cls is not None:
+            owner_body = h.cls.node.body
+        else:
+            owner_body = h.module.tree.body
+        if h.node in owner_body and len(owner_body) > 1:
+            owner_body.remove(h.node)
+            dropped.append(h.qualname)
+    return dropped
